@@ -231,8 +231,14 @@ func (e *Exec) typeAxiom(name, term string, global bool, allocTerm string) {
 	f := e.sc.rangeFact("(select "+term+" r)", t)
 	// well-formed heap: references stored in the heap denote objects allocated so far
 	if allocTerm != "" {
+		// (only for objects that exist in this version of the heap: the slots of objects allocated later -
+		// e.g. fresh results of contracted callees, whose fields the callee's postcondition describes -
+		// are not constrained)
 		tmp := &State{heap: map[string]string{"G_alloc": allocTerm}, cells: map[string]string{}}
-		f = and(f, e.allocFact(tmp, "(select "+term+" r)", t))
+		if af := e.allocFact(tmp, "(select "+term+" r)", t); af != "true" {
+			e.sc.declFun("root", []string{"Int"}, "Int")
+			f = and(f, implies("(<= (root r) "+allocTerm+")", af))
+		}
 	}
 	if f == "true" {
 		return
@@ -348,8 +354,19 @@ func (e *Exec) boxHeap(t types.Type) string {
 
 func (e *Exec) mapHeaps(m *types.Map) (mv, md, mc string) {
 	ks, vs := e.sc.sortOf(m.Key()), e.sc.sortOf(m.Elem())
-	mv = e.heapMap("MV_"+sortTag(ks)+"_"+sortTag(vs), "(Array Int (Array "+ks+" "+vs+"))")
-	md = e.heapMap("MD_"+sortTag(ks)+"_"+sortTag(vs), "(Array Int (Array "+ks+" Bool))")
+	vtag := sortTag(vs)
+	// maps whose values are pointers to different struct types are different Go types, hence different
+	// objects: keep them in separate heaps (no aliasing questions between, say, the active-user map and
+	// the usage queue)
+	if pt, ok := types.Unalias(m.Elem()).Underlying().(*types.Pointer); ok {
+		if nt, ok := types.Unalias(pt.Elem()).(*types.Named); ok {
+			if _, isStruct := nt.Underlying().(*types.Struct); isStruct {
+				vtag = "P" + sanitize(structName(nt))
+			}
+		}
+	}
+	mv = e.heapMap("MV_"+sortTag(ks)+"_"+vtag, "(Array Int (Array "+ks+" "+vs+"))")
+	md = e.heapMap("MD_"+sortTag(ks)+"_"+vtag, "(Array Int (Array "+ks+" Bool))")
 	mc = e.heapMap("MC", "(Array Int Int)")
 	return
 }
